@@ -30,6 +30,7 @@ package c10
 import (
 	"bufio"
 	"fmt"
+	"os"
 	"sort"
 	"strconv"
 	"strings"
@@ -102,6 +103,7 @@ type world struct {
 	syncN   int64
 	abyss   *recAbyss
 	tainted atomic.Bool
+	closing atomic.Bool // the system is being shut down: lifecycle hooks no longer subscribe
 	mu      sync.Mutex
 }
 
@@ -336,6 +338,9 @@ func (w *world) handle(a *sActor, inc int, ctx vivid.ActorContext) {
 
 // hookSubscribe: Subscribe calls inside a lifecycle handler; a failing call must not take the handler down.
 func (w *world) hookSubscribe(a *sActor, ctx vivid.ActorContext, topics []string) {
+	if w.closing.Load() {
+		return // the subscription actor may be gone already: Subscribe would wait for its 1 s timeout
+	}
 	defer func() {
 		if r := recover(); r != nil {
 			w.tainted.Store(true)
@@ -502,6 +507,7 @@ func (w *world) shutdown() {
 	if w == nil || w.sys == nil {
 		return
 	}
+	w.closing.Store(true)
 	done := make(chan struct{})
 	sys := w.sys
 	go func() {
@@ -561,8 +567,13 @@ func actorName(n string) string {
 type serialRunner struct{ w *world }
 
 func (r *serialRunner) Reset() {
+	t0 := time.Now()
 	r.w.shutdown()
+	t1 := time.Now()
 	r.w = newWorld(nil, "sys", 0, nil)
+	if d := time.Since(t0); d > 200*time.Millisecond && os.Getenv("C10_TIMING") != "" {
+		fmt.Fprintf(os.Stderr, "slow reset: shutdown %v newWorld %v\n", t1.Sub(t0), time.Since(t1))
+	}
 }
 
 func join(res, obs string) string {
